@@ -220,11 +220,13 @@ Observations ==
             THEN {"compare:result-differs-from-documented:" \o HelperTag(Ev.t)} ELSE {}
       [] OTHER -> {}
 
+FailOrStay == IF wst = "open" THEN Fail ELSE UNCHANGED wvars
 Apply ==
     CASE Ev.e = "Create" -> Create(Ev.cols) /\ UNCHANGED rf
-      [] Ev.e = "WriteBatch" -> (IF Ev.st # 0 THEN Fail ELSE WriteBatch(Ev.c + 1, Ev.n, Ev.withDefs, Ev.defs, Ev.vals)) /\ UNCHANGED rf
-      [] Ev.e = "NewRowGroup" -> (IF Ev.st # 0 THEN Fail ELSE NewRowGroup) /\ UNCHANGED rf
-      [] Ev.e = "Close" -> (IF Ev.st # 0 THEN (IF wst = "open" THEN Fail ELSE UNCHANGED wvars) ELSE Close) /\ UNCHANGED rf
+      \* a call that reports failure ends the promises of the writer (calls after it change nothing more)
+      [] Ev.e = "WriteBatch" -> (IF Ev.st # 0 THEN FailOrStay ELSE WriteBatch(Ev.c + 1, Ev.n, Ev.withDefs, Ev.defs, Ev.vals)) /\ UNCHANGED rf
+      [] Ev.e = "NewRowGroup" -> (IF Ev.st # 0 THEN FailOrStay ELSE NewRowGroup) /\ UNCHANGED rf
+      [] Ev.e = "Close" -> (IF Ev.st # 0 THEN FailOrStay ELSE Close) /\ UNCHANGED rf
       [] Ev.e = "RFile" -> rf' = [cols |-> Ev.cols, rgs |-> Ev.rgs] /\ UNCHANGED wvars
       [] OTHER -> UNCHANGED wvars /\ UNCHANGED rf
 
